@@ -141,6 +141,29 @@ def builtin_near_misses(rng, limit):
     return [ZOO_PRELUDE + f + "\n" for f in forms + pairs[:limit]]
 
 
+WRAPPERS = ["if b {\n%s\n}", "if b {\n} else {\n%s\n}", "if b {\n} else if i == 1 {\n%s\n}", "for k := 0; k < 2; k++ {\n%s\n}",
+            "for b {\n%s\n}", "for {\n%s\n}", "for _, v := range xs {\n%s\n}", "switch i {\ncase 1:\n%s\n}", "switch {\ncase b:\n%s\n}",
+            "switch i {\ncase 1:\n\tprint(1)\ndefault:\n%s\n}", "func g() {\n%s\n}\ng()", "func h() int {\n%s\n\treturn 1\n}\nprint(h())"]
+PLACED = ["break", "continue", "return", "return 1", "return 1, 2", "func inner() {\n\tprint(1)\n}", "x := 1", "import \"strings\"",
+          "var xs2 = []int{1}", "panic(\"p\")", "qv()"]
+
+
+def placement_cases(rng, depth3):
+    """every control statement under every nesting of constructs (round 5: a `continue` the parser lets through crashes the
+    Batch converter, which indexes its stack of open loops without a check): script or error, never a crash"""
+    out = []
+    nestings = [[w] for w in WRAPPERS] + [[w1, w2] for w1 in WRAPPERS for w2 in WRAPPERS]
+    extra = [[w1, w2, w3] for w1 in WRAPPERS for w2 in WRAPPERS for w3 in WRAPPERS]
+    rng.shuffle(extra)
+    for nest in [[]] + nestings + extra[:depth3]:
+        for st in PLACED:
+            body = st
+            for w in reversed(nest):
+                body = w % body
+            out.append(ZOO_PRELUDE + body + "\n")
+    return out
+
+
 def run(res, b, tier, seed):
     rng = random.Random(seed * 31337 + 13)
     pr = common.prove("C13")
@@ -191,6 +214,8 @@ def run(res, b, tier, seed):
         add("imports", files)
     for src in builtin_near_misses(rng, 500 if quick else 100000):
         add("near-miss", {"a.tsh": src.encode()})
+    for src in placement_cases(rng, 60 if quick else 1728):
+        add("placement", {"a.tsh": src.encode()})
     # call graphs with many paths to the same function (a diamond chain): every stage must stay polynomial
     for n_f in ((45,) if quick else (45, 60, 120)):
         src = "func f0() int {\n\treturn 1\n}\nfunc f1() int {\n\treturn 1\n}\n"
